@@ -50,6 +50,11 @@ def reduce_paramsets_requirements(paramsets_requirements, paramsets_user_configs
             # if v is a tuple, it's not user-configured, so convert to list
             if v == 'undefined':
                 continue
+            # no default exists (e.g. lumi) and the user did not configure it
+            if v is None:
+                raise exceptions.InvalidModel(
+                    f"The {k} of {paramset_name} have no default and must be configured in the measurement."
+                )
             if isinstance(v, tuple):
                 v = list(v)
             # this implies user-configured, so check that it has the right number of elements
